@@ -1538,9 +1538,9 @@ Proof.
   assert (V3 : forall k, olookup k (c_children c') = option_map (mv_list n np k) (olookup k (c_children c))).
   { intros k. unfold c'. cbn [c_children]. rewrite !olookup_oset. unfold mv_list.
     destruct (oeqbP k (Some np)) as [->|Hk].
-    - rewrite Hlnp. simpl. destruct (oeqbP (Some np) op) as [E|E].
-      + rewrite <- E in Hl. rewrite Hl in Hlnp. inv Hlnp. reflexivity.
-      + rewrite Hlnp. rewrite (remove_first_notin n lnp); [reflexivity|]. apply (Hnin _ _ Hlnp E).
+    - rewrite Hlnp. cbn [option_map]. destruct (oeqbP (Some np) op) as [E|E].
+      + assert (E2 : l = lnp) by congruence. rewrite E2. reflexivity.
+      + rewrite (remove_first_notin n lnp); [reflexivity|]. apply (Hnin _ _ Hlnp E).
     - destruct (oeqbP k op) as [->|Hk2].
       + rewrite Hl. reflexivity.
       + destruct (olookup k (c_children c)) as [lk|] eqn:Ek; [|reflexivity]. simpl.
